@@ -211,3 +211,36 @@ func VerifC14_CancelledAnnouncedSyncIsNotified() {
 	}
 	verif_Assert(v.latest() == cid.Undef, "the cancelled sync records nothing")
 }
+
+// C14: every completed sync that updates the latest-synced advertisement is
+// notified — also when it ends on the same head as the previous notified sync
+// of that publisher (the caller rolled the latest-synced value back with
+// SetLatestSync to ingest the last advertisements again): second notification,
+// same CID, its own block count, to every listener.
+func VerifC14_ResyncAfterRollbackIsNotified() {
+	chain := c01chain(3) // newest first
+	v := newVSub(chain, -1, 0, 0, true)
+	go v.s.distributeEvents()
+	fast, _ := v.s.OnSyncFinished()
+	late, _ := v.s.OnSyncFinished() // read only at the end
+	got, err := v.s.SyncAdChain(context.Background(), v.peer)
+	verif_Assert(err == nil && got == chain[0], "first sync succeeds")
+	e1 := <-fast
+	verif_Assert(e1.Err == nil && e1.Cid == chain[0] && e1.Count == 3 && e1.PeerID == v.peer.ID, "first notification: head, publisher and block count of the first sync")
+	back := verif_Choose("rolledBackTo", 1, 2)
+	verif_Assert(v.s.SetLatestSync(v.peer.ID, chain[back]) == nil, "the latest-synced advertisement can be rolled back")
+	got, err = v.s.SyncAdChain(context.Background(), v.peer)
+	verif_Assert(err == nil && got == chain[0], "second sync succeeds")
+	verif_Assert(v.latest() == chain[0], "the second sync moved the latest-synced advertisement to the head again")
+	e2 := <-fast // (a missing notification is reported as a hang)
+	verif_Reach("second notification")
+	verif_Assert(e2.Err == nil && e2.Cid == chain[0] && e2.Count == back && e2.PeerID == v.peer.ID, "a sync that ends on the same head as the previous one is notified with its own block count")
+	close(v.s.closing)
+	close(v.s.inEvents)
+	n := 0
+	for e := range late {
+		verif_Assert(e.Cid == chain[0], "the late listener gets the same notifications")
+		n++
+	}
+	verif_Assert(n == 2, "every listener receives both notifications")
+}
